@@ -14,7 +14,7 @@ from common import Case, Failure, flist, parse_flist, clist, parse_clist, call, 
 
 PID = 'C11'
 LEAN_TARGETS = ['Nitime.Props.C11']
-RULE = ('cases from one PRNG state: covariance sequences estimated from coloured multichannel data (N 64..512, thorough ..4096) '
+RULE = ('every routine is also run in call sequences on the same argument objects (>=3 evaluations, refilled arrays, fewer/more lags); cases from one PRNG state: covariance sequences estimated from coloured multichannel data (N 64..512, thorough ..4096) '
         'or exact covariances of drawn stable VAR processes; nc 1..6, P 1..8; channel permutations; covariance scales 1e-12..1e4; fit_model with fixed order 0..5 '
         'and BIC/AIC-selected order (max_order 10); generate_mar with a fixed numpy seed; distinct = distinct protocol line; '
         'block-Toeplitz systems with cond > 1e6 are skipped and counted')
@@ -108,12 +108,12 @@ def run_impl(m):
     op = m['op']
     if op == 'lwr':
         r = np.array(parse_flist(m['r'])).reshape(-1, m['nc'], m['nc'])
-        return call(lambda: (lambda a, s: 'ok %s %s' % (rflat(a), rflat(s)))(*ar.lwr_recursion(r)))
+        return call(lambda: (ar.lwr_recursion(r), (lambda a, s: 'ok %s %s' % (rflat(a), rflat(s)))(*ar.lwr_recursion(r)))[1])
     x = np.array(parse_flist(m['x'])).reshape(m['nc'], -1) if 'x' in m else None
     if op == 'acov':
-        return call(lambda: 'ok ' + rflat(ut.autocov_vector(x, nlags=m['nl']).transpose(2, 0, 1)))
+        return call(lambda: (ut.autocov_vector(x, nlags=m['nl']), 'ok ' + rflat(ut.autocov_vector(x, nlags=m['nl']).transpose(2, 0, 1)))[1])
     if op == 'mar':
-        return call(lambda: (lambda a, s: 'ok %s %s' % (rflat(a), rflat(s)))(*ar.MAR_est_LWR(x, m['order'])))
+        return call(lambda: (ar.MAR_est_LWR(x, m['order']), (lambda a, s: 'ok %s %s' % (rflat(a), rflat(s)))(*ar.MAR_est_LWR(x, m['order'])))[1])
     if op == 'fitc':
         tbl = m['table']
 
@@ -214,7 +214,7 @@ def check_solution(r, a, sigma, fail, tag=''):
     return None
 
 
-def judge(m, impl, clause):
+def judge_value(m, impl, clause):
     ar, ut, gr = mods()
     op = m['op']
 
@@ -342,6 +342,72 @@ def judge(m, impl, clause):
     return None
 
 
+def sequence_judge(m, clause):
+    """pure-function behaviour on call sequences: same argument objects, >= 3 evaluations, bitwise
+    equal results, arguments unchanged, no aliasing of internal state, no identity-keyed memory
+    (array refilled in place; fewer / more lags asked the second time)"""
+    import ar_seq, warnings
+    warnings.simplefilter('ignore')
+    ar, ut, gr = mods()
+    op = m['op']
+    nc = m.get('nc', 2)
+
+    def fail(sym):
+        return Failure('%s/sequence/%s' % (clause, sym), '%s: call sequence on the same argument objects: %s [op %s]' % (clause, sym, op),
+                       {'meta': m, 'clause': clause})
+    syms = []
+    if op == 'lwr':
+        r = np.array(parse_flist(m['r'])).reshape(-1, nc, nc)
+        syms = ar_seq.run_schedule({'lwr': lambda: ar.lwr_recursion(r)}, ['lwr'] * 3, [r])
+        if not syms:
+            syms = ar_seq.refill_check(lambda arr, _: ar.lwr_recursion(arr), r, r * 0.5 + 0.1 * np.eye(nc), [0])
+    elif op in ('acov', 'mar', 'fit', 'fitc'):
+        x = np.array(parse_flist(m['x'])).reshape(nc, -1)
+        x2 = x[::-1, ::-1].copy() * 0.7 + 0.01
+        if op == 'acov':
+            nl = m['nl']
+            syms = ar_seq.run_schedule({'acov': lambda: ut.autocov_vector(x, nlags=nl),
+                                        'ccov': lambda: ut.crosscov_vector(x, x, nlags=nl)}, ['acov', 'ccov', 'acov', 'ccov', 'acov'], [x])
+            if not syms:
+                syms = ar_seq.refill_check(lambda arr, k: ut.autocov_vector(arr, nlags=k), x, x2, [nl, max(1, nl - 1), nl + 1])
+        elif op == 'mar':
+            o = m['order']
+            syms = ar_seq.run_schedule({'mar': lambda: ar.MAR_est_LWR(x, o), 'acov': lambda: ut.autocov_vector(x, nlags=o + 1)},
+                                       ['mar', 'acov', 'mar', 'mar'], [x])
+            if not syms:
+                syms = ar_seq.refill_check(lambda arr, k: ar.MAR_est_LWR(arr, k), x, x2, [o, max(1, o - 1)])
+        else:
+            if op == 'fitc':
+                tbl = m['table']
+                crit = lambda ecov, p, mm, nt: tbl[mm]
+                kw = dict(max_order=m['maxo'], criterion=crit)
+            else:
+                crit = {'bic': ut.bayesian_information_criterion, 'aic': ut.akaike_information_criterion}[m['crit']]
+                kw = dict(order=None if m['order'] < 0 else m['order'], max_order=m['maxo'], criterion=crit)
+
+            def fit(arr):
+                try:
+                    return gr.fit_model(arr[0], arr[1], **kw)
+                except ValueError:
+                    return 'ValueError'
+            syms = ar_seq.run_schedule({'fit': lambda: fit(x)}, ['fit'] * 3, [x])
+            if not syms:
+                syms = ar_seq.refill_check(lambda arr, _: fit(arr), x, x2, [0])
+    elif op == 'gmar':
+        a = np.array(parse_flist(m['a'])).reshape(-1, nc, nc)
+        cov = np.array(parse_flist(m['cov'])).reshape(nc, nc)
+
+        def g():
+            np.random.seed(m['seed'])
+            return ut.generate_mar(a, cov, m['N'])
+        syms = ar_seq.run_schedule({'gmar': g}, ['gmar'] * 3, [a, cov])
+    return fail(syms[0]) if syms else None
+
+
+def judge(m, impl, clause):
+    return judge_value(m, impl, clause) or sequence_judge(m, clause)
+
+
 def solve_dense(r, P):
     """block Yule–Walker by one dense solve (oracle's own estimator)"""
     nc = r.shape[1]
@@ -376,6 +442,10 @@ def cases(rng, tier, seed):
     for i in range(n_lwr):
         nc = int(nrng.randint(1, 7))
         P = int(nrng.randint(1, 9))
+        if i % 7 == 3:
+            nc = 1                      # 1x1 matrices are both C- and F-contiguous (overwrite_a style slips)
+        if i % 5 == 2 and nc >= 2:
+            P = nc - 1                  # cube-shaped stack (P+1 == nc): axis mix-ups go unnoticed by shape checks
         m = {'op': 'lwr', 'nc': nc, 'perm': [int(t) for t in nrng.permutation(nc)]}
         if i % 2 == 0:
             N = int(nrng.choice([64, 128, 256, 512] + ([2048, 4096] if big else [])))
@@ -405,6 +475,8 @@ def cases(rng, tier, seed):
         m = {'op': 'acov', 'nc': nc, 'nl': int(nrng.randint(1, 7)), 'x': flist(x.reshape(-1))}
         out.append(mk_case(m, 'autocov', cmp_groups(rtol=1e-9)))
         order = int(nrng.randint(1, 6))
+        if i % 3 == 1 and nc >= 2:
+            order = nc - 1              # cube-shaped covariance stack in MAR_est_LWR
         if np.linalg.cond(block_toeplitz(direct_autocov(x, order + 1), order)) < COND_MAX:
             m = {'op': 'mar', 'nc': nc, 'order': order, 'x': flist(x.reshape(-1))}
             out.append(mk_case(m, 'mar', cmp_groups()))
